@@ -5,6 +5,7 @@ import (
 	"fmt"
 	"strings"
 	"testing"
+	"time"
 
 	"pgregory.net/rapid"
 
@@ -87,6 +88,9 @@ func drawDeep(t *rapid.T) ([]byte, string, int) {
 // child process.
 func TestDeepNesting(t *testing.T) {
 	ev.Checks(12, 14)
+	ev.ShrinkTime(5 * time.Second)
+
+	defer ev.ShrinkTime(30 * time.Second)
 
 	rapid.Check(t, func(t *rapid.T) {
 		b, label, depth := drawDeep(t)
